@@ -371,7 +371,12 @@ def run_check(pid, tier, seed, keep=False, only_run=None, case_range=None):
     total = State()
     statuses = []
     # wrapper callables must be picklable (module-level functions)
-    with multiprocessing.Pool(min(NCPU, max(1, len(jobs)))) as pool:
+    # on an oversubscribed box (many checks at once) run fewer shards at a time; shard boundaries are unchanged
+    try:
+        par = NCPU if os.getloadavg()[0] < 3 * NCPU or "VERIF_JOBS" in os.environ else max(4, NCPU // 3)
+    except OSError:
+        par = NCPU
+    with multiprocessing.Pool(min(par, max(1, len(jobs)))) as pool:
         for (st, status), job in zip(pool.imap(_run_shard, jobs), jobs):
             for v in st.violations:
                 v["run"] = job[2].name
